@@ -92,7 +92,7 @@ static void enumerateAll(const std::function<void(const Spec &)> &f) {
     }
   for (int setter = 0; setter < 11; ++setter)
     for (int variant = 0; variant < 4; ++variant) { Spec s = b; s.aux = 2; s.aux2 = setter * 8 + variant; f(s); }
-  for (int k = 0; k < 14; ++k) { Spec s = b; s.aux = 3; s.aux2 = k; f(s); }
+  for (int k = 0; k < 19; ++k) { Spec s = b; s.aux = 3; s.aux2 = k; f(s); }
 }
 
 static CallResult runStage(Circuit &c, int stage, const ColoquinteParameters &p, const std::optional<PlacementCallback> &cb) {
@@ -197,7 +197,12 @@ static vf::Verdicts eval(const Spec &s, vf::Ctx &ctx) {
   }
   // malformed nets
   {
-    Circuit c = build(s);
+    Spec base = s;
+    if (s.aux2 >= 14) {  // the same on a circuit without any cell / with a single cell
+      base.cells.resize(s.aux2 >= 17 ? 1 : 0);
+      base.nets.clear();
+    }
+    Circuit c = build(base);
     int n = c.nbCells();
     Snapshot before = snapshot(c);
     int k = s.aux2;
@@ -218,6 +223,11 @@ static vf::Verdicts eval(const Spec &s, vf::Ctx &ctx) {
         case 11: what = "setNets limits not starting at 0"; c.setNets({1, 2}, {0, 1}, {0, 0}, {0, 0}); break;
         case 12: what = "setNets decreasing limits"; c.setNets({0, 2, 1}, {0, 1}, {0, 0}, {0, 0}); break;
         case 13: what = "setNets wrong number of weights"; c.setNets({0, 2}, {0, 1}, {0, 0}, {0, 0}, {1.0f, 2.0f, 3.0f}); break;
+        case 14: what = "empty circuit: addNet pin on cell 0"; c.addNet({0}, {0}, {0}); break;
+        case 15: what = "empty circuit: addNet pins on cells 5 and 7"; c.addNet({5, 7}, {0, 0}, {0, 0}); break;
+        case 16: what = "empty circuit: setNets pins on cells 0 and 1"; c.setNets({0, 2}, {0, 1}, {0, 0}, {0, 0}); break;
+        case 17: what = "one-cell circuit: addNet pin on cell 1"; c.addNet({0, 1}, {0, 0}, {0, 0}); break;
+        case 18: what = "one-cell circuit: setNets pin on cell 1"; c.setNets({0, 2}, {1, 0}, {0, 0}, {0, 0}); break;
       }
     });
     if (r.threw && !r.stdExc) fail("non-std-exception", what);
@@ -251,7 +261,7 @@ int main(int argc, char **argv) {
       "every effort in -16..32 and 8 extreme 32-bit values through ColoquinteParameters(effort[,seed]) and the effort entry points; every parameter field driven just below / at / "
       "just above each bound of its documented range, one at a time and in pairs (quick: a fixed third of the field pairs): agreement test between check() and "
       "placeGlobal/legalize/placeDetailed (rejected => all three throw, callback never invoked, circuit unchanged; accepted => sanitizer-clean); every Circuit setter with lengths "
-      "{0, n-1, n+1, 2n}; addNet/setNets with inconsistent lengths, pin cells -1, n, INT_MAX, malformed limits; all under ASan+UBSan+libstdc++ assertions";
+      "{0, n-1, n+1, 2n}; addNet/setNets with inconsistent lengths, pin cells -1, n, INT_MAX, malformed limits, also on circuits with zero and one cell; all under ASan+UBSan+libstdc++ assertions";
   c.bounds = gThorough ? "all field pairs" : "one third of field pairs";
   c.assumptions = {"documented bounds are only used to generate values; the oracle is agreement between check() and the entry points"};
   c.enumerate = enumerateAll;
